@@ -129,37 +129,108 @@ def _thaw(v):
     return v
 
 
+class _Skip:
+    """marker for attribute values that are not counter state (locks, sockets, callbacks ...)"""
+
+
+def _deep_freeze(v, depth=0):
+    if depth > 6:
+        return _Skip
+    if v is None or isinstance(v, (bool, int, str, bytes, float)):
+        return v
+    if isinstance(v, tuple):
+        out = tuple(_deep_freeze(x, depth + 1) for x in v)
+        return _Skip if any(x is _Skip for x in out) else ("tuple", out)
+    if isinstance(v, list):
+        out = tuple(_deep_freeze(x, depth + 1) for x in v)
+        return _Skip if any(x is _Skip for x in out) else ("list", out)
+    if isinstance(v, dict):
+        try:
+            items = tuple(sorted(((k, _deep_freeze(x, depth + 1)) for k, x in v.items()), key=repr))
+        except TypeError:
+            return _Skip
+        return _Skip if any(x is _Skip for _k, x in items) else ("dict", items)
+    if isinstance(v, Obj) and v.cls is not None:
+        items = tuple(sorted(((k, _deep_freeze(x, depth + 1)) for k, x in v.attrs.items()), key=repr))
+        if any(x is _Skip for _k, x in items):
+            return _Skip
+        return ("obj", v.cls.name, items)
+    return _Skip
+
+
+def _deep_thaw(repo, v):
+    if isinstance(v, tuple) and v and v[0] in ("tuple", "list", "dict", "obj"):
+        if v[0] == "tuple":
+            return tuple(_deep_thaw(repo, x) for x in v[1])
+        if v[0] == "list":
+            return [_deep_thaw(repo, x) for x in v[1]]
+        if v[0] == "dict":
+            return {k: _deep_thaw(repo, x) for k, x in v[1]}
+        cls = next(c for cs in repo.classes().values() for c in cs if c.name == v[1])
+        return Obj(cls, {k: _deep_thaw(repo, x) for k, x in v[2]})
+    return v
+
+
+def build_instance(repo, interp, cname):
+    """an instance of the connection class built by its own constructor (collaborators are stand-ins)"""
+    from ..absint import ClassRef, Native, Opaque
+    c = repo.cls(cname)
+    init = next((k.methods["__init__"] for k in repo.mro(c) if "__init__" in k.methods), None)
+    n_pos = 0
+    if init is not None:
+        a = init.node.args
+        n_pos = len(a.args) - 1 - len(a.defaults)
+    hook = interp.call_hook
+
+    def threading_hook(it, node, callee, args, kwargs):
+        nm = getattr(callee, "name", "")
+        if nm in ("threading.Lock", "threading.RLock"):
+            return Obj(None, {"__enter__": Native(lambda a_, k_: None), "__exit__": Native(lambda a_, k_: None),
+                              "acquire": Native(lambda a_, k_: True), "release": Native(lambda a_, k_: None)}, name="lock")
+        if nm.startswith("threading.") or nm.startswith("socket."):
+            return Obj(None, name=nm)
+        return NotImplemented
+    interp.call_hook = threading_hook
+    try:
+        stand_ins = [Obj(None, {"settimeout": Native(lambda a_, k_: None), "done": Native(lambda a_, k_: False)}, name=f"arg{i}") for i in range(max(n_pos, 0))]
+        return interp.apply(ClassRef(c), stand_ins, {})
+    except (PyRaise, Undecided) as e:
+        raise AnalysisError(f"{cname}(...) cannot be constructed by interpretation: {e}")
+    finally:
+        interp.call_hook = hook
+
+
 def fixpoint(ctx, repo, cname, tier):
     fi = repo.own_method(cname, FN)
     attrs = counter_attrs(fi)
-    # class-level constants read through `self.` (range bounds given names) are not state
-    c0 = repo.cls(cname)
-    written = {t.attr for m in c0.methods.values() for n in ast.walk(m.node) if isinstance(n, (ast.Assign, ast.AugAssign, ast.AnnAssign))
-               for t in (n.targets if isinstance(n, ast.Assign) else [n.target]) if isinstance(t, ast.Attribute) and isinstance(t.value, ast.Name) and t.value.id == "self"}
-    attrs = [a for a in attrs if not (a not in written and any(a in k.consts for k in repo.mro(c0)))]
-    if not attrs:
-        glob = [ast.unparse(t) for n in walk_no_nested(fi.node) if isinstance(n, (ast.Assign, ast.AugAssign))
-                for t in (n.targets if isinstance(n, ast.Assign) else [n.target]) if isinstance(t, ast.Subscript) and isinstance(t.value, ast.Name)]
-        if glob or any(isinstance(n, (ast.Global, ast.Nonlocal)) for n in walk_no_nested(fi.node)):
-            ctx.ob("R3", f"{cname}::instance-state", False, f"{fi.qual} keeps its counters in {glob or 'global names'}, not in the instance: every connection shares them", fi.loc)
-            return
-        raise AnalysisError(f"{fi.qual}: no counter state found - idiom not supported by C16")
-    init, initfi = init_consts(ctx, repo, cname, attrs)
-    ctx.ob("R3", f"{cname}::instance-state", set(init) == set(attrs),
-           f"counter state {attrs} is not completely initialised to constants in {cname}.__init__ (found {sorted(init)})", initfi.loc)
-    if set(init) != set(attrs):
-        return
-    # class-level / module-level state would make them shared between connections
     c = repo.cls(cname)
-    shared = [a for a in attrs if any(a in k.consts for k in repo.mro(c))]
-    ctx.ob("R3", f"{cname}::no-class-state", not shared, f"counter(s) {shared} also declared at class level (shared between connections)", c.loc)
+    interp = Interp(repo)
+    base = build_instance(repo, interp, cname)
+    # counter state: every attribute of the constructed instance that is plain data (ints, containers, small record
+    # objects), whatever its name or grouping; everything else (lock, socket, queues of stand-ins) is carried along
+    state_names = sorted(k for k, v in base.attrs.items() if _deep_freeze(v) is not _Skip)
+    carried = {k: v for k, v in base.attrs.items() if k not in state_names}
+    if not state_names:
+        raise AnalysisError(f"{cname}: no plain-data attribute after construction - counter state not found")
+    # per-instance: a second instance built in the same interpreter starts from the same numbers however far the
+    # first one has advanced (a module- or class-level object bound without a copy would be shared)
+    try:
+        first = build_instance(repo, interp, cname)
+        a0 = [interp.call(fi, first, [False]), interp.call(fi, first, [True]), interp.call(fi, first, [False]), interp.call(fi, first, [True])]
+        second = build_instance(repo, interp, cname)
+        b0 = [interp.call(fi, second, [False]), interp.call(fi, second, [True])]
+    except PyRaise as e:
+        a0, b0 = f"raises {e.what}", None
+    except Undecided as e:
+        raise AnalysisError(f"{fi.qual}: cannot interpret: {e}")
+    ctx.ob("R3", f"{cname}::instance-state", isinstance(a0, list) and b0 == a0[:2],
+           f"two {cname} instances in one process: the first issues {a0}, a second one built afterwards then issues {b0} - expected it to start over at {a0[:2] if isinstance(a0, list) else '?'}: "
+           f"the counters are shared between connections (module- or class-level state)", fi.loc)
     for n in walk_no_nested(fi.node):
         if isinstance(n, (ast.Global, ast.Nonlocal)):
             ctx.ob("R3", f"{cname}::no-global", False, "counter function uses global/nonlocal state", loc(fi, n))
 
-    interp = Interp(repo)
-    lock = Obj(None, name="lock")
-    start = (tuple(_freeze(init[a]) for a in attrs), None, None)
+    start = (tuple(_deep_freeze(base.attrs[a]) for a in state_names), None, None)
     seen = {start}
     q = deque([start])
     rets = {False: set(), True: set()}
@@ -170,14 +241,14 @@ def fixpoint(ctx, repo, cname, tier):
     while q and nviol < 20:
         s = q.popleft()
         for kind in (False, True):
-            d = {a: _thaw(v) for a, v in zip(attrs, s[0])}
-            d["_lock"] = lock
+            d = dict(carried)
+            d.update({a: _deep_thaw(repo, v) for a, v in zip(state_names, s[0])})
             obj = Obj(c, d)
             interp.steps = 0
             try:
                 r = interp.call(fi, obj, [kind])
             except PyRaise as e:
-                ctx.ob("R1", f"{cname}::raises", False, f"{fi.qual}({kind}) raises {e.what} in state {dict(zip(attrs, s[0]))}", fi.loc)
+                ctx.ob("R1", f"{cname}::raises", False, f"{fi.qual}({kind}) raises {e.what} in state {_show(state_names, s[0])}", fi.loc)
                 nviol += 1
                 continue
             except Undecided as e:
@@ -187,7 +258,7 @@ def fixpoint(ctx, repo, cname, tier):
             name = "command" if kind else "protocol"
             if not isinstance(r, int) or isinstance(r, bool) or r not in rng:
                 ctx.ob("R1", f"{cname}::{name}-range", False,
-                       f"{fi.qual}({kind}) returns {r!r} from counter state {dict(zip(attrs, s[0]))}: outside {min(rng)}..{max(rng)}", fi.loc)
+                       f"{fi.qual}({kind}) returns {r!r} from counter state {_show(state_names, s[0])}: outside {min(rng)}..{max(rng)}", fi.loc)
                 nviol += 1
             prev = s[2] if kind else s[1]
             if prev is not None and isinstance(r, int) and not succ_law(prev, r, rng):
@@ -195,7 +266,9 @@ def fixpoint(ctx, repo, cname, tier):
                        f"{fi.qual}({kind}) returns {r} after {prev}: not the successor in the cycle {min(rng)}..{max(rng)}", fi.loc)
                 nviol += 1
             rets[kind].add(r)
-            ns = (tuple(_freeze(obj.attrs.get(a)) for a in attrs), r if not kind else s[1], r if kind else s[2])
+            ns = (tuple(_deep_freeze(obj.attrs.get(a)) for a in state_names), r if not kind else s[1], r if kind else s[2])
+            if any(x is _Skip for x in ns[0]):
+                raise AnalysisError(f"{fi.qual}: a counter-state attribute stopped being plain data after a call")
             res[(s, kind)] = (r, ns)
             if ns not in seen:
                 if len(seen) >= cap:
@@ -225,6 +298,26 @@ def fixpoint(ctx, repo, cname, tier):
     ctx.ob("R1", f"{cname}::never-zero", 0 not in rets[False] | rets[True], f"{fi.qual} can return 0", fi.loc)
     ctx.ob("R2", f"{cname}::successor-law", True, f"successor law checked on {ntrans} transitions of {len(seen)} states")
     return fi, attrs, trans
+
+
+def _show(names, frozen):
+    """the part of a frozen state that is not constant noise: small ints and containers of them"""
+    out = {}
+    for n_, v_ in zip(names, frozen):
+        t_ = repr(v_)
+        if any(ch.isdigit() for ch in t_) and len(t_) < 160:
+            out[n_] = _plain(v_)
+    return out
+
+
+def _plain(v):
+    if isinstance(v, tuple) and v and v[0] in ("tuple", "list"):
+        return [_plain(x) for x in v[1]]
+    if isinstance(v, tuple) and v and v[0] == "dict":
+        return {k: _plain(x) for k, x in v[1]}
+    if isinstance(v, tuple) and v and v[0] == "obj":
+        return {k: _plain(x) for k, x in v[2]}
+    return v
 
 
 def _rng(s):
@@ -283,7 +376,7 @@ def lock_discipline(ctx, repo, cname, attrs):
 
             for st in fi.node.body:
                 visit(st, False)
-    ctx.floor("R3", f"{cname} counter accesses under lock", n_acc, 4)
+    ctx.floor("R3", f"{cname} counter accesses under lock", n_acc, 1)
 
 
 def call_sites(ctx, repo):
@@ -302,8 +395,17 @@ def call_sites(ctx, repo):
                     seq_builders[(c.short, n)] = f
     n_draws = 0
     n_builder_calls = 0
+    # the four command entry points are decided by interpretation (vlib/writemodel.py): one draw of the command kind,
+    # its number in the frame - however the call is spelled (helper taking a builder lambda, keyword arguments ...)
+    from ..writemodel import KEY_SITES, SET_SITES, device_writes, key_presses
+    covered = {f"{c_}.{m_}" for c_, m_, _l in SET_SITES + KEY_SITES}
+    device_writes(ctx, repo, "R4", kinds=True)
+    key_presses(ctx, repo, "R4")
     for fi in repo.all_functions():
         if fi.name == FN:
+            continue
+        if fi.qual in covered:
+            n_draws += sum(1 for n in ast.walk(fi.node) if isinstance(n, ast.Call) and call_name(n) == FN)
             continue
         parents = {}
         for n in ast.walk(fi.node):
